@@ -32,11 +32,15 @@ def check_program(job):
     st, seed = job
     rnd = random.Random(seed)
     lines = variant_lines(fscopes.render(st["prog"]), rnd)
+    # spacing variant: indentation by TAB characters; the editor sends the text itself (didOpen with text)
+    tabbed = rnd.random() < 0.2
+    if tabbed:
+        lines = ["\t" * ((len(l) - len(l.lstrip(" "))) // 2) + l.lstrip(" ") for l in lines]
     d = adapter.mkws({"p.f90": "\n".join(lines) + "\n"})
     bad = []
     try:
         s, c = adapter.mkserver(d)
-        adapter.did_open(s, c, d, "p.f90")
+        adapter.did_open(s, c, d, "p.f90", text=("\n".join(lines) + "\n") if tabbed else None)
         res = adapter.result_of(adapter.request(s, c, "textDocument/documentSymbol", {"textDocument": {"uri": adapter.uri(d, "p.f90")}}))
         if not isinstance(res, list):
             return [({"outline:noResult"}, {"lines": lines, "result": res})]
@@ -82,6 +86,11 @@ def check_program(job):
                 bad.append(({"wsym:noResult"}, {"query": q, "result": ws}))
                 continue
             got = [w["name"].lower() for w in ws]
+            # "exactly the indexed units and members": every returned name is a name written in the program
+            src_low = "\n".join(lines).lower()
+            phantom = [g for g in got if g not in src_low]
+            if phantom:
+                bad.append(({"wsym:phantomName"}, {"query": q, "phantom": phantom, "observed": got}))
             want = sorted(n.lower() for n, _k in exp if q.lower() in n.lower())
             # members of program units are don't-care: ignore names that are not required-class names
             reqnames = {n.lower() for n, _k in exp}
@@ -92,7 +101,68 @@ def check_program(job):
                 bad.append(({"wsym:unsorted"}, {"query": q, "observed": [w["name"] for w in ws]}))
     finally:
         adapter.rmws(d)
-    return [(t, dict(x, lines=lines)) for t, x in bad]
+    return [(t | ({"indent:tab"} if tabbed else set()), dict(x, lines=lines)) for t, x in bad]
+
+
+def keyword_names_program():
+    """A module whose variables all have names that BEGIN with a statement keyword, assigned to at the start of
+    statements, followed by further procedures: the outline must not be disturbed by any of them."""
+    names = ["%s_q" % k.rstrip("_") for k in fscopes.KWNAMES[1:]] + ["blocks", "interface_flux", "imports", "end_time", "endpoint", "block_size", "interfaces",
+                                                                      "import_count", "enddo_x", "endif_x", "contains1", "implicit1", "typed", "used", "dotted", "iffy", "selected", "wherever"]
+    names = sorted(set(names))
+    lines = ["module kwm", "  implicit none"]
+    lines += ["  real :: %s(4)" % n for n in names]
+    lines += ["contains", "  subroutine kws(n)", "    integer, intent(in) :: n"]
+    first = len(lines)
+    lines += ["    %s(n) = 0.0" % n for n in names]
+    lines += ["  end subroutine kws", "  subroutine after()", "  end subroutine after", "end module kwm"]
+    return names, lines, first
+
+
+def check_keyword_names(_job=None):
+    names, lines, first = keyword_names_program()
+    d = adapter.mkws({"k.f90": "\n".join(lines) + "\n"})
+    bad = []
+    try:
+        s, c = adapter.mkserver(d)
+        adapter.did_open(s, c, d, "k.f90")
+        res = adapter.result_of(adapter.request(s, c, "textDocument/documentSymbol", {"textDocument": {"uri": adapter.uri(d, "k.f90")}}))
+        got = {(r["name"].lower(), (r.get("containerName") or "").lower(), r["location"]["range"]["start"]["line"], r["location"]["range"]["end"]["line"]) for r in (res or [])}
+        n = len(lines)
+        want = {("kwm", "", 0, n - 1), ("kws", "kwm", first - 2, n - 4), ("after", "kwm", n - 3, n - 2)}
+        for w in sorted(want):
+            if w not in got:
+                culprit = None
+                # which assignment disturbs the outline? re-index with one assignment at a time
+                bad.append(({"outline:keywordLikeName", "entry:" + w[0]}, {"expected": w, "observed": sorted(g for g in got if g[0] in ("kwm", "kws", "after")), "lines": lines}))
+        extra = sorted(g[0] for g in got if g[0] not in {x.lower() for x in names} | {"kwm", "kws", "after", "n"})
+        if extra:
+            bad.append(({"outline:phantomEntry"}, {"extra": extra, "lines": lines}))
+        diags, exc = s.get_diagnostics(adapter.uri(d, "k.f90"))
+        errs = [x for x in (diags or []) if x.get("severity") == 1]
+        if exc is not None or errs:
+            bad.append(({"keywordLikeName:errorPublished"}, {"diagnostics": errs[:5], "exception": repr(exc), "lines": lines}))
+        if bad:
+            # name the culprits: index the program with ONE assignment at a time
+            culprits = []
+            for nm_ in names:
+                one = lines[:first] + ["    %s(n) = 0.0" % nm_] + lines[first + len(names):]
+                d2 = adapter.mkws({"k.f90": "\n".join(one) + "\n"})
+                try:
+                    s2, c2 = adapter.mkserver(d2)
+                    r2 = adapter.result_of(adapter.request(s2, c2, "textDocument/documentSymbol", {"textDocument": {"uri": adapter.uri(d2, "k.f90")}}))
+                    g2 = {(r["name"].lower(), r["location"]["range"]["end"]["line"]) for r in (r2 or [])}
+                    dg, _e = s2.get_diagnostics(adapter.uri(d2, "k.f90"))
+                    if ("after", len(one) - 2) not in g2 or ("kws", len(one) - 4) not in g2 or any(x.get("severity") == 1 for x in (dg or [])):
+                        culprits.append(nm_)
+                finally:
+                    adapter.rmws(d2)
+            for t, x in bad:
+                x["culprits"] = culprits
+                t |= {"name:" + cu for cu in culprits[:6]}
+    finally:
+        adapter.rmws(d)
+    return bad
 
 
 def main(tier, seed):
@@ -139,12 +209,28 @@ def main(tier, seed):
         for tags, detail in val:
             detail.update(kind="program", state=progs[i], seed=jobs[i][1])
             ck.violation(tags, detail)
+    # names beginning with statement keywords
+    for i, status, val in par.pmap(check_keyword_names, [0], item_timeout=600):
+        ck.count(key="keywordNames")
+        if status != "done":
+            ck.violation({"replay:" + status, "keywordNames"}, {"kind": "keywordNames", "detail": val})
+            continue
+        ck.traces += 1
+        for tags, detail in val:
+            detail.update(kind="keywordNames")
+            ck.violation(tags, detail)
     for p in progs[:: max(1, len(progs) // 3)][:3]:
         ck.sample({"source": fscopes.render(p["prog"]), "required_outline": [{k: (sorted(v) if isinstance(v, set) else v) for k, v in e.items()} for e in fscopes.expected_outline(p)]})
     return ck.finish()
 
 
 def replay(path):
+    rec0 = json.load(open(path))
+    if rec0.get("kind") == "keywordNames":
+        res = check_keyword_names()
+        for t, x in res:
+            print(sorted(t), json.dumps({k: v for k, v in x.items() if k != "lines"}, default=str)[:800])
+        return 1 if res else 0
     rec = json.load(open(path))
     res = check_program((rec["state"], rec["seed"]))
     for t, dct in res:
